@@ -51,6 +51,9 @@ func (s *Sched) Current() int { return s.cur.id }
 // the operation can proceed (e.g. the mutex is free). It returns when the thread is scheduled again.
 func (s *Sched) Point(enabled func() bool) {
 	t := s.cur
+	if t == nil { // (called by a goroutine the scheduler does not own, between two turns: nothing to decide)
+		return
+	}
 	t.enabled = enabled
 	// The decision is taken right here by the running thread (it is the only managed thread that runs): when it is
 	// "the same thread goes on" nothing is handed over.
